@@ -207,14 +207,19 @@ impl BlockEncoder {
         };
         let mut buffer: Vec<u8> =
             vec![0; block_length as usize * oti.encoding_symbol_length as usize];
-        let result = match stream.read(&mut buffer) {
-            Ok(s) => s,
-            Err(e) => {
-                log::error!("Fail to read file {:?}", e.to_string());
-                self.read_end = true;
-                return Ok(());
+        // read() may return less than asked for before the end of the stream: fill the block
+        let mut result = 0;
+        while result < buffer.len() {
+            match stream.read(&mut buffer[result..]) {
+                Ok(0) => break,
+                Ok(s) => result += s,
+                Err(e) => {
+                    log::error!("Fail to read file {:?}", e.to_string());
+                    self.read_end = true;
+                    return Ok(());
+                }
             }
-        };
+        }
 
         if result == 0 {
             self.read_end = true;
